@@ -5,6 +5,12 @@
 mod util;
 mod vals;
 mod c13;
+mod c16;
+mod mpc_common;
+mod families;
+mod c01;
+mod c02;
+mod c04;
 
 use util::{Run, Tier};
 
@@ -47,6 +53,18 @@ fn main() {
     let mut run = Run::new(&prop, seed, tier);
     match (mode.as_str(), prop.as_str()) {
         ("corr", "C13") => c13::corr(&mut run),
+        ("corr", "C16") => c16::corr(&mut run),
+        ("corr", "C01") => c01::corr(&mut run),
+        ("corr", "C02") => c02::corr(&mut run),
+        ("corr", "C04") => c04::corr(&mut run),
+        ("gen", "C04") => {
+            c04::gen(&mut run, &out);
+            return;
+        }
+        ("gen", "C02") => {
+            c02::gen(&mut run, &out);
+            return;
+        }
         _ => {
             eprintln!("no {} for {}", mode, prop);
             std::process::exit(2);
